@@ -649,16 +649,58 @@ def validate_graph_traces(ctx, recs):
 # trace validation: long random call sequences on BeadStructure, judged by TLC (BeadTrace.tla)
 # ----------------------------------------------------------------------------------------
 
+def _run_items(exe, items):
+    """vlib.run_items with a timeout proportional to the work; an expired timeout is broken
+    infrastructure (DESIGN 7.6: no verdict from timing), reported at once instead of being
+    retried item by item."""
+    ncmd = sum(len(c) for _, c in items)
+    results, crashes = {}, {}
+    pos = 0
+    while pos < len(items):
+        chunk = items[pos:]
+        owner, lines = [], []
+        for idx, (iid, cmds) in enumerate(chunk):
+            for c in cmds:
+                owner.append(idx)
+                lines.append(c)
+        rc, out, err = vlib.run_driver(exe, "\n".join(lines) + "\n", timeout=180 + 0.02 * ncmd)
+        if rc == -999:
+            done = out.count("\ncmd ") + (1 if out.startswith("cmd ") else 0)
+            raise vlib.InfraError("driver %s did not finish in time; it was executing '%s'"
+                                  % (exe, lines[done - 1] if 0 < done <= len(lines) else "?"))
+        cur, per_cmd = None, []
+        for ln in out.splitlines():
+            if ln.startswith("cmd "):
+                cur = []
+                per_cmd.append(cur)
+            elif cur is not None:
+                cur.append(ln)
+        for ci, res in enumerate(per_cmd):
+            results.setdefault(chunk[owner[ci]][0], []).append(res)
+        if rc == 0 and len(per_cmd) == len(lines):
+            break
+        if not per_cmd:
+            raise vlib.InfraError("driver %s died before the first command (rc=%s): %s" % (exe, rc, err[-2000:]))
+        bad = owner[len(per_cmd) - 1]
+        iid = chunk[bad][0]
+        crashes[iid] = "rc=%s during '%s': %s" % (rc, lines[len(per_cmd) - 1], err[-1500:])
+        results.pop(iid, None)
+        for k in range(bad + 1, len(chunk)):
+            results.pop(chunk[k][0], None)
+        pos += bad + 1
+    return results, crashes
+
+
 def _run_parallel(exe, items, nproc=4):
-    """run_items over slices in parallel (the driver is single threaded and items are independent)"""
+    """_run_items over slices in parallel (the driver is single threaded and items are independent)"""
     import concurrent.futures
     if len(items) < 200 or nproc <= 1:
-        return vlib.run_items(exe, items)
+        return _run_items(exe, items)
     step = (len(items) + nproc - 1) // nproc
     slices = [items[k:k + step] for k in range(0, len(items), step)]
     results, crashes = {}, {}
     with concurrent.futures.ThreadPoolExecutor(max_workers=nproc) as pool:
-        for r, c in pool.map(lambda s: vlib.run_items(exe, s), slices):
+        for r, c in pool.map(lambda sl: _run_items(exe, sl), slices):
             results.update(r)
             crashes.update(c)
     return results, crashes
